@@ -65,6 +65,8 @@ def r_val(v):
     raise ValueError(v)
 
 ENUM_DEF = "<shape> := :circle<u64> | :square<u64> | :dot"
+ENUM_SIBLINGS = ["<sib1> := :circle<u64> | :square<u64>", "<sib2> := :circle<u64> | :dot", "<sib3> := :square<u64> | :dot",
+                 "<sib4> := :circle<u64> | :other1", "<sib5> := :square<u64> | :other2", "<sib6> := :dot | :other3"]
 def enum_lit(v): return ":" + v["tag"] + ("(" + u(v["e"][0]) + ")" if v["e"] else "")
 
 def fn_header(fam, form, name, out="u64"):
@@ -301,6 +303,10 @@ def run(rep, tier, seed):
                 stmts.append(ENUM_DEF); tags.append(("setup",))
                 for k, row in enumerate(cs["rows"]):
                     stmts.append(f"e{k}<shape> := {enum_lit(row['val'])}"); tags.append(("setup",))
+                if len(reqs) % 2 == 1:
+                    # every other session also defines (after the values exist) SIBLING enums that share variant names with `shape`:
+                    # which enum a value belongs to is fixed by the value, never by what the arms of a match happen to name
+                    for sd in ENUM_SIBLINGS: stmts.append(sd); tags.append(("setup",))
             if form == "match":
                 stmts.append("inq := 7u64"); tags.append(("setup",))      # the outer variable the pair arms 13/14 read / shadow
                 for k, row in enumerate(cs["rows"]):
